@@ -3,8 +3,8 @@ import Nstd.Generated.HashLink
   The two-table machine of `PtrModel.lean` (`pstep`) with the bodies TRANSLATED from the current headers
   (`Nstd/Generated/HashLink.lean`, tools/gen_hash.py) in place of the hand-written ones, for every operation whose member is
   translated: append / prepend / insert (→ `insert`), remove by key / iterator / value address, removeFront / removeBack,
-  clear, swap, find, contains, assignment, HashSet bulk append / remove, `==` / `!=`.  The remaining operations (constructors, copy,
-  the self-argument members, value update, the iterator walks of the queries) are those of `pstep`.  `PropsLink.lean` proves `gstep = pstep` on every
+  clear, swap, find, contains, assignment, HashSet bulk append / remove, `==` / `!=`.  the self-argument members.  The remaining operations
+  (constructors incl. the copy constructor, value update, the iterator walks of the queries) are those of `pstep`.  `PropsLink.lean` proves `gstep = pstep` on every
   state that represents a model state, hence the refinement theorems hold of this machine.
 -/
 namespace Nstd.Hash.Ptr
@@ -156,6 +156,20 @@ def gstep (kind : Kind) (h : Nat → Nat) (s : PState) (op : Op) : Option (PStat
     match gEqual kind h (s.get t) (s.get u) with
     | some b => some (s, .flag (!b))
     | none => none
+  | .assignSelf t =>
+    optSet s t (match kind with
+      | .map => HashLink.HashMap.assignSelf h (s.get t)
+      | .set => HashLink.HashSet.assignSelf h (s.get t)
+      | .pool => some (s.get t)) .unit
+  | .swapSelf t =>
+    optSet s t (match kind with
+      | .map => HashLink.HashMap.swapSelf (s.get t)
+      | .set => HashLink.HashSet.swapSelf (s.get t)
+      | .pool => HashLink.PoolMap.swapSelf (s.get t)) .unit
+  | .appendSelf t =>
+    optSet s t (if kind = Kind.set then HashLink.HashSet.appendSelf h (s.get t) else PTable.appendSelf kind h (s.get t)) .unit
+  | .removeSelf t =>
+    optSet s t (if kind = Kind.set then HashLink.HashSet.removeSelf h (s.get t) else PTable.removeSelf h (s.get t)) .unit
   | op => pstep kind h s op
 
 def grun (kind : Kind) (h : Nat → Nat) : PState → List Op → Option (PState × List Out)
